@@ -6,3 +6,4 @@
 #include <stddef.h>
 const int c12_off_lbrr_coded = (int)(offsetof(OpusEncoder,silk_mode)+offsetof(silk_EncControlStruct,LBRR_coded));
 const int c12_off_voice_ratio = (int)offsetof(OpusEncoder,voice_ratio);
+const int c12_off_force_channels = (int)offsetof(OpusEncoder,force_channels);
